@@ -1,5 +1,5 @@
 (* C15S — source tie by translation for the activations' forward compositions (the graphs back-propagation runs over).
-   Statements only (proofs: Proofs/ChainP.v).  Model/Chains.v is REGENERATED from /repo's Go sources
+   Statements only (proofs: Proofs/Chain*P.v).  Model/Chains.v is REGENERATED from /repo's Go sources
    on every run by the translator harness/chainx (go/ast): the straight-line chains of Tensor method
    calls of the five activations' forward functions (component/layers/activations/*.go).
    Each theorem interprets the generated chain with the model's own operations (Model/ChainIR.v) and
@@ -9,7 +9,7 @@
 From Coq Require Import String List ZArith Bool.
 From Qeep Require Import Model.Scalar Model.Nd Model.Data Model.Valid Model.Api Model.Grad Model.Components Model.ChainIR.
 From Qeep Require Model.Chains.
-From Qeep Require Import Proofs.ChainP.
+From Qeep Require Import Proofs.ChainBaseP Proofs.ChainActP.
 Import ListNotations.
 Local Open Scope string_scope.
 
@@ -17,21 +17,21 @@ Theorem relu_forward_is_its_source_chain :
   forall (A : Type) (SA : Scalar A) (h : heap) (x : nat) (nm : option nat),
   relu_forward h [Some x] nm =
   atomically h (asHres (runFun (hooksH rsNone noUser nm noGuard) Chains.relu_forward h [("x", x)])).
-Proof. exact @ChainP.relu_chain. Qed.
+Proof. exact @ChainActP.relu_chain. Qed.
 Print Assumptions relu_forward_is_its_source_chain.
 
 Theorem sigmoid_forward_is_its_source_chain :
   forall (A : Type) (SA : Scalar A) (h : heap) (x : nat) (nm : option nat),
   sigmoid_forward h [Some x] nm =
   atomically h (asHres (runFun (hooksH rsNone noUser nm noGuard) Chains.sigmoid_forward h [("x", x)])).
-Proof. exact @ChainP.sigmoid_chain. Qed.
+Proof. exact @ChainActP.sigmoid_chain. Qed.
 Print Assumptions sigmoid_forward_is_its_source_chain.
 
 Theorem tanh_forward_is_its_source_chain :
   forall (A : Type) (SA : Scalar A) (h : heap) (x : nat) (nm : option nat),
   tanh_forward h [Some x] nm =
   asHres (runFun (hooksH rsNone noUser nm noGuard) Chains.tanh_forward h [("x", x)]).
-Proof. exact @ChainP.tanh_chain. Qed.
+Proof. exact @ChainActP.tanh_chain. Qed.
 Print Assumptions tanh_forward_is_its_source_chain.
 
 Theorem leaky_forward_is_its_source_chain :
@@ -39,7 +39,7 @@ Theorem leaky_forward_is_its_source_chain :
   leaky_forward h m [Some x] nm =
   atomically h
     (asHres (runFun (hooksH (rsLeaky m) noUser nm noGuard) Chains.leaky_forward h [("x", x)])).
-Proof. exact @ChainP.leaky_chain. Qed.
+Proof. exact @ChainActP.leaky_chain. Qed.
 Print Assumptions leaky_forward_is_its_source_chain.
 
 Theorem softmax_forward_is_its_source_chain :
@@ -48,5 +48,5 @@ Theorem softmax_forward_is_its_source_chain :
   softmax_forward h dim [Some x] nm =
   atomically h
     (asHres (runFun (hooksH (rsSoftmax dim) noUser nm noGuard) Chains.softmax_forward h [("x", x)])).
-Proof. exact @ChainP.softmax_chain. Qed.
+Proof. exact @ChainActP.softmax_chain. Qed.
 Print Assumptions softmax_forward_is_its_source_chain.
